@@ -6,7 +6,7 @@ from .. import flow
 from ..fold import try_fold
 from ..util import stmts_with_env, calls_with_env, assignments_to, single_def, kwarg, param_names
 from . import shared
-from .common import method, guarded_by_raise, has_atom, unconditional_in
+from .common import method, guarded_by_raise, has_atom, unconditional_in, evaluated_whenever_statement_runs
 
 AM = 'vermouth/processors/annotate_mut_mod.py'
 RG = 'vermouth/processors/repair_graph.py'
@@ -126,6 +126,10 @@ def run(ck):
         ok = len(inner2) == 1 and u(inner2[0].iter) == u(loops[0].target.elts[0]) and len(loops[0].body) == 1
         calls = [s for s in inner2[0].body if any(isinstance(c, ast.Call) and call_name(c) == '_resiter' for c in ast.walk(s))] if ok else []
         ok = ok and len(calls) == 1 and unconditional_in(ann, inner2[0].body, calls[0])
+        if ok:
+            rc_ = [c for c in ast.walk(calls[0]) if isinstance(c, ast.Call) and call_name(c) == '_resiter']
+            ok = len(rc_) == 1 and evaluated_whenever_statement_runs(mod, rc_[0], calls[0]) and \
+                [u(a) for a in rc_[0].args] == ['mod', 'residue_graph', 'resspec', 'library', 'key', 'molecule']
     assoc = single_def(ann, 'associations')
     ok = ok and assoc is not None and "(modifications, 'modification', molecule.force_field.modifications)" in u(assoc) and \
         "(mutations, 'mutation', molecule.force_field.blocks)" in u(assoc)
